@@ -604,6 +604,177 @@ def r9(ctx, R):
             R.ok("C07.R9", agg.short, k, loc(agg, c), "no state shared between iterations")
 
 
+# ------------------------------------------------------------------ R10
+class _Undecidable(Exception):
+    pass
+
+
+def _type_ids(ctx):
+    """{NAME: int} of the *_TYPE_ID constants of the package"""
+    out = {}
+    for rel, cs in ctx.m.consts.items():
+        for k, v in cs.items():
+            if k.endswith("_TYPE_ID"):
+                if isinstance(v, ast.Constant) and type(v.value) is int:
+                    out[k] = v.value
+                elif isinstance(v, ast.UnaryOp) and isinstance(v.op, ast.USub) and isinstance(v.operand, ast.Constant):
+                    out[k] = -v.operand.value
+    return out
+
+
+def _class_type_id(ctx, c, ids):
+    """the constant returned by the class's get_type(), or None"""
+    q = ctx.m.method(c, "get_type")
+    if not q:
+        return None
+    f = ctx.m.funcs[q]
+    rets = [r for r in ctx.m.walk_own(f.node) if isinstance(r, ast.Return)]
+    if len(rets) == 1 and isinstance(rets[0].value, ast.Name) and rets[0].value.id in ids:
+        return ids[rets[0].value.id]
+    if len(rets) == 1 and isinstance(rets[0].value, ast.Constant) and type(rets[0].value.value) is int:
+        return rets[0].value.value
+    return None
+
+
+def _eval_valid_parent(fnode, parent_type, ids):
+    """Concrete evaluation of a check_valid_parent body for a parent that exists and whose
+    get_type() is `parent_type`.  Only the shapes such predicates are written in: if / return /
+    assignment of `self.parent.get_type()` / comparisons with integer constants / and-or-not /
+    membership in a display of constants.  Anything else: _Undecidable."""
+    env = {}
+    import operator as op_
+
+    CMP = {ast.Eq: op_.eq, ast.NotEq: op_.ne, ast.Lt: op_.lt, ast.LtE: op_.le, ast.Gt: op_.gt, ast.GtE: op_.ge}
+
+    def ev(e):
+        if isinstance(e, ast.Constant):
+            return e.value
+        if isinstance(e, ast.Name):
+            if e.id in env:
+                return env[e.id]
+            if e.id in ids:
+                return ids[e.id]
+            raise _Undecidable(f"name {e.id}")
+        if isinstance(e, ast.Call) and unparse(e) == "self.parent.get_type()":
+            return parent_type
+        if isinstance(e, ast.Attribute) and unparse(e) == "self.parent":
+            return "<parent>"
+        if isinstance(e, ast.UnaryOp) and isinstance(e.op, ast.Not):
+            return not ev(e.operand)
+        if isinstance(e, ast.UnaryOp) and isinstance(e.op, ast.USub):
+            return -ev(e.operand)
+        if isinstance(e, ast.BoolOp):
+            r = None
+            for v in e.values:
+                r = ev(v)
+                if isinstance(e.op, ast.And) and not r:
+                    return r
+                if isinstance(e.op, ast.Or) and r:
+                    return r
+            return r
+        if isinstance(e, ast.IfExp):
+            return ev(e.body) if ev(e.test) else ev(e.orelse)
+        if isinstance(e, (ast.Tuple, ast.List, ast.Set)):
+            return [ev(x) for x in e.elts]
+        if isinstance(e, ast.Call) and isinstance(e.func, ast.Name) and e.func.id == "range" and not e.keywords:
+            return list(range(*[ev(a) for a in e.args]))
+        if isinstance(e, ast.BinOp) and isinstance(e.op, (ast.Add, ast.Sub)):
+            a, b = ev(e.left), ev(e.right)
+            if type(a) is int and type(b) is int:
+                return a + b if isinstance(e.op, ast.Add) else a - b
+            raise _Undecidable("arithmetic")
+        if isinstance(e, ast.Compare):
+            left = ev(e.left)
+            for o, c in zip(e.ops, e.comparators):
+                right = ev(c)
+                if isinstance(o, (ast.Is, ast.IsNot)):
+                    if right is None or left is None:
+                        res = (left is None and right is None) if isinstance(o, ast.Is) else not (left is None and right is None)
+                    else:
+                        raise _Undecidable("identity test")
+                elif isinstance(o, (ast.In, ast.NotIn)):
+                    if not isinstance(right, list):
+                        raise _Undecidable("membership")
+                    res = (left in right) if isinstance(o, ast.In) else (left not in right)
+                elif type(o) in CMP:
+                    if type(left) is not int or type(right) is not int:
+                        raise _Undecidable("comparison of non-integers")
+                    res = CMP[type(o)](left, right)
+                else:
+                    raise _Undecidable("operator")
+                if not res:
+                    return False
+                left = right
+            return True
+        raise _Undecidable(type(e).__name__)
+
+    def run(stmts):
+        for st in stmts:
+            if isinstance(st, ast.Expr) and isinstance(st.value, ast.Constant):
+                continue
+            if isinstance(st, ast.Return):
+                return ("ret", ev(st.value) if st.value is not None else None)
+            if isinstance(st, ast.If):
+                r = run(st.body if ev(st.test) else st.orelse)
+                if r is not None:
+                    return r
+                continue
+            if isinstance(st, ast.Assign) and len(st.targets) == 1 and isinstance(st.targets[0], ast.Name):
+                env[st.targets[0].id] = ev(st.value)
+                continue
+            if isinstance(st, ast.AnnAssign) and isinstance(st.target, ast.Name) and st.value is not None:
+                env[st.target.id] = ev(st.value)
+                continue
+            if isinstance(st, ast.Pass):
+                continue
+            raise _Undecidable(type(st).__name__)
+        return None
+
+    r = run(fnode.body)
+    return bool(r[1]) if r is not None else None  # falling off the end returns None (falsy)
+
+
+def r10(ctx, R):
+    R.rule("C07.R10", "procedure nested in a type or block: the valid-parent predicate of procedures is false for a parent of class Type and of every block-construct class (finite evaluation over the type-id table)", floor=6, confirmed=8)
+    ids = _type_ids(ctx)
+    if len(ids) < 10:
+        raise AnalysisError(f"type-id table: only {len(ids)} *_TYPE_ID constants found")
+    block = ctx.m.cname.get("Block")
+    typ = ctx.m.cname.get("Type")
+    if not block or not typ:
+        raise AnalysisError("Block / Type classes not found")
+    bad_parents = []  # (class name, id)
+    for c in sorted(ctx.m.cone(block.qual if hasattr(block, "qual") else block) | {typ.qual if hasattr(typ, "qual") else typ}):
+        tid = _class_type_id(ctx, c, ids)
+        bad_parents.append((ctx.m.classes[c].name, tid))
+    subjects = [k for k in (ctx.m.cname.get("Subroutine"), ctx.m.cname.get("Function")) if k]
+    seen = set()
+    for k in subjects:
+        kq = k.qual if hasattr(k, "qual") else k
+        q = ctx.m.method(kq, "check_valid_parent")
+        if not q:
+            R.violation("C07.R10", ctx.m.classes[kq].name, "valid-parent predicate", (ctx.m.classes[kq].rel, ctx.m.classes[kq].node.lineno), "no check_valid_parent: a definition of this kind is accepted anywhere")
+            continue
+        if q in seen:
+            continue
+        seen.add(q)
+        f = ctx.m.funcs[q]
+        for cname, tid in bad_parents:
+            kk = f"parent {cname} (id {tid})"
+            if tid is None:
+                R.undecided("C07.R10", f.short, kk, loc(f, f.node), "the class's get_type() constant was not derived")
+                continue
+            try:
+                v = _eval_valid_parent(f.node, tid, ids)
+            except _Undecidable as e:
+                R.undecided("C07.R10", f.short, kk, loc(f, f.node), f"predicate not evaluable ({e})")
+                continue
+            if v:
+                R.violation("C07.R10", f.short, kk, loc(f, f.node), f"the predicate accepts a parent of class {cname}: a {ctx.m.classes[f.cls].name.lower()} definition nested in {'a derived type' if cname == 'Type' else 'this block construct'} is no longer reported ('Invalid parent for ... declaration')")
+            else:
+                R.ok("C07.R10", f.short, kk, loc(f, f.node), "rejected")
+
+
 def run(ctx, R):
     r1(ctx, R)
     r2(ctx, R)
@@ -613,3 +784,4 @@ def run(ctx, R):
     r6(ctx, R)
     r8(ctx, R)
     r9(ctx, R)
+    r10(ctx, R)
